@@ -109,7 +109,7 @@ Proof. intro H. unfold is_fixed. rewrite H. reflexivity. Qed.
 
 (* the product of proper normals: natural parameters add, the result is a proper normal *)
 Lemma normal_sum_additive (a b : rmsg) : normal_valid a -> nvalid b ->
-  rnat (b_sum Rops a [b]) = map2 (vadd Rops) (rnat a) (rnat b) /\ normal_valid (b_sum Rops a [b]).
+  rnat (b_sum Rops pinned a [b]) = map2 (vadd Rops) (rnat a) (rnat b) /\ normal_valid (b_sum Rops pinned a [b]).
 Proof.
   intros Va Vb. pose proof (normal_valid_nvalid a Va) as Na. destruct Va as [F V].
   unfold b_sum. rewrite (normal_not_fixed a F). unfold nat_of at 1, normal_valid. cbn [fam elems fold_left].
@@ -121,7 +121,7 @@ Proof. intros (a & b & -> & _). reflexivity. Qed.
 
 (* (a*b)/b has exactly the parameters of a *)
 Lemma normal_div_mul_elems (a b : rmsg) : normal_valid a -> nvalid b -> length (elems a) = length (elems b) ->
-  elems (b_div Rops (b_sum Rops a [b]) b) = elems a.
+  elems (b_div Rops (b_sum Rops pinned a [b]) b) = elems a.
 Proof.
   intros Va Vb L. destruct (normal_sum_additive a b Va Vb) as [Add [Fab _]].
   pose proof (normal_valid_nvalid a Va) as Na. destruct Va as [F V].
@@ -148,7 +148,7 @@ Proof.
 Qed.
 
 Lemma normal_pow_add_elems (a : rmsg) (j k : R) : normal_valid a -> 0 < j -> 0 < k ->
-  elems (b_sum Rops (b_pow Rops a j) [b_pow Rops a k]) = elems (b_pow Rops a (j + k)).
+  elems (b_sum Rops pinned (b_pow Rops a j) [b_pow Rops a k]) = elems (b_pow Rops a (j + k)).
 Proof.
   intros Va J K.
   destruct (normal_pow_linear a j Va J) as [Lj Vj]. destruct (normal_pow_linear a k Va K) as [Lk Vk].
@@ -382,7 +382,7 @@ End ModelDet.
 (* ------------------------------------------------------------------ *)
 (* full message statements for NormalMessage (parameters, class, id, limits, shape AND log_norm) *)
 Lemma normal_div_mul_partial (a b : rmsg) : normal_valid a -> nvalid b -> length (elems a) = length (elems b) ->
-  let r := b_div Rops (b_sum Rops a [b]) b in
+  let r := b_div Rops (b_sum Rops pinned a [b]) b in
   fam r = FNormal /\ bmeta r = bmeta a /\ elems r = elems a /\ lognorm r = - lognorm b.
 Proof.
   intros Va Vb L r. destruct (normal_sum_additive a b Va Vb) as [_ [Fab _]].
@@ -392,11 +392,11 @@ Proof.
   - unfold r. rewrite b_div_bmeta, b_sum_bmeta. reflexivity.
   - apply normal_div_mul_elems; assumption.
   - unfold r, b_div. rewrite (normal_not_fixed _ Fab). cbn [lognorm]. unfold b_sum. rewrite (normal_not_fixed a F).
-    cbn [lognorm c0 osub Rops RopsP]. ring.
+    cbn [lognorm c0 osub Rops RopsP product_keeps_lognorm pinned]. ring.
 Qed.
 
 Lemma normal_pow_add_partial (a : rmsg) (j k : R) : normal_valid a -> 0 < j -> 0 < k ->
-  let l := b_sum Rops (b_pow Rops a j) [b_pow Rops a k] in
+  let l := b_sum Rops pinned (b_pow Rops a j) [b_pow Rops a k] in
   let r := b_pow Rops a (j + k) in
   fam l = fam r /\ bmeta l = bmeta r /\ elems l = elems r /\ lognorm l = 0 /\ lognorm r = (j + k) * lognorm a.
 Proof.
@@ -417,7 +417,7 @@ Proof. induction u as [|x u IH]; cbn; [reflexivity|]. f_equal; [ring | exact IH]
 Lemma normal_zeros (a : rmsg) : normal_valid a ->
   fam (b_zeros Rops a) = FNatural /\ bmeta (b_zeros Rops a) = bmeta a
   /\ rnat (b_zeros Rops a) = map (map (fun _ => 0)) (rnat a)
-  /\ elems (b_sum Rops a [b_zeros Rops a]) = elems a /\ bmeta (b_sum Rops a [b_zeros Rops a]) = bmeta a.
+  /\ elems (b_sum Rops pinned a [b_zeros Rops a]) = elems a /\ bmeta (b_sum Rops pinned a [b_zeros Rops a]) = bmeta a.
 Proof.
   intros [F V].
   assert (Z : rnat (b_zeros Rops a) = map (fun u => vscale Rops 0 (vscale Rops 0 u)) (rnat a)).
